@@ -1,5 +1,6 @@
 #include "ov_theory.h"
 #include "ov_value_listener.h"
+#include "verif_hooks.h"
 #include <algorithm>
 #include <cassert>
 
@@ -34,6 +35,15 @@ namespace smt
             }
         }
         assigns.push_back(c_vals);
+#ifdef ORATIO_VERIF
+        if (smt::verif::current())
+        {
+            std::vector<lit> v_lits;
+            for (const auto &i : items)
+                v_lits.push_back(c_vals.at(i));
+            ORATIO_VERIF_HOOK(def_ov_var(this, id, items, v_lits));
+        }
+#endif
         return id;
     }
 
@@ -49,6 +59,7 @@ namespace smt
             is_contained_in[variable(lits[i])].insert(id);
         }
         assigns.push_back(c_vals);
+        ORATIO_VERIF_HOOK(def_ov_var(this, id, vals, lits));
         return id;
     }
 
@@ -62,6 +73,7 @@ namespace smt
 
     SMT_EXPORT lit ov_theory::new_eq(const var &left, const var &right) noexcept
     {
+        ORATIO_VERIF_WRAP(new_eq(left, right), def_ov_eq(this, left, right, vr_));
         if (left == right)
             return TRUE_lit;
 
